@@ -164,6 +164,9 @@ pub fn install_panic_hook() {
                     Some(_) => format!("std:{}", file.rsplit("/library/").next().unwrap_or(&file)),
                     None => match file.find("/verif/sim/") {
                         Some(i) => format!("harness:{}", &file[i + 11..]),
+                        None if file.starts_with("wfsim/") || file.starts_with("simcore/") || file.starts_with("simrayon/") => {
+                            format!("harness:{file}")
+                        },
                         None => file,
                     },
                 },
